@@ -3,6 +3,7 @@
   Property theorems only; helper lemmas are in EscProofs/Lemmas.
 -/
 import EscProofs.Lemmas.Run
+import EscProofs.Lemmas.Classify
 namespace Esc.P
 open Esc Esc.Spec
 
@@ -56,62 +57,6 @@ theorem goAge_gt (now v s : Int) (hs : 0 ≤ s) (hlo : -(2:Int)^63 ≤ v) (hhi :
   · omega
   · split at h <;> omega
 
-theorem nodesOf_mem {dry : Bool} {st : GState} {c : Class} {nodes : List Node} {n : Node} (h : n ∈ nodesOf dry st c nodes) :
-    n ∈ nodes ∧ classify dry st n = c := by
-  unfold nodesOf at h
-  simpa using h
-
-theorem classify_force {st : GState} {n : Node} (h : classify false st n = .force) :
-    n.unschedulable = false ∧ hasTaint forceKey n = true := by
-  unfold classify at h
-  simp only [Bool.false_eq_true, if_false] at h
-  split at h
-  · simp at h
-  · split at h
-    · rename_i h1 h2; exact ⟨by simpa using h1, h2⟩
-    · split at h <;> simp at h
-
-theorem classify_tainted {st : GState} {n : Node} (h : classify false st n = .tainted) :
-    n.unschedulable = false ∧ hasTaint forceKey n = false ∧ hasTaint escKey n = true := by
-  unfold classify at h
-  simp only [Bool.false_eq_true, if_false] at h
-  split at h
-  · simp at h
-  · split at h
-    · simp at h
-    · split at h
-      · rename_i h1 h2 h3; exact ⟨by simpa using h1, by simpa using h2, h3⟩
-      · simp at h
-
-theorem classify_untainted {st : GState} {n : Node} (h : classify false st n = .untainted) :
-    n.unschedulable = false ∧ hasTaint forceKey n = false ∧ hasTaint escKey n = false := by
-  unfold classify at h
-  simp only [Bool.false_eq_true, if_false] at h
-  split at h
-  · simp at h
-  · split at h
-    · simp at h
-    · split at h
-      · simp at h
-      · rename_i h1 h2 h3; exact ⟨by simpa using h1, by simpa using h2, by simpa using h3⟩
-
-/-- A member node's instance id resolves to an instance of the cached group with that provider id. -/
-theorem instance_backs {g : PGroup} {n : Node} (hb : belongs g n = true) :
-    g.asg.instances.any (fun i => i.id == instanceIdFor g n && providerIdOf i == n.providerID) = true := by
-  unfold belongs at hb
-  unfold instanceIdFor
-  rw [List.any_eq_true] at hb
-  obtain ⟨i, hi, hp⟩ := hb
-  cases hfind : g.asg.instances.find? (fun i => providerIdOf i == n.providerID) with
-  | none =>
-    have := List.find?_eq_none.mp hfind i hi
-    simp [hp] at this
-  | some i' =>
-    have hmem := List.mem_of_find?_eq_some hfind
-    have hpred := List.find?_some hfind
-    rw [List.any_eq_true]
-    exact ⟨i', hmem, by simp [hpred]⟩
-
 /-- Candidates of the force reaper are eligible under clause (c). -/
 theorem forceCand_eligible {globalDry : Bool} {cfg : GroupCfg} {st0 : GState} {g : PGroup} {view : View} {nowMock nowReal : Int}
     {n : Node} (hn : n ∈ forceCands (globalDry || cfg.dryMode) view.pods (nodesOf (globalDry || cfg.dryMode) st0 .force view.nodes)) :
@@ -163,20 +108,6 @@ theorem reaperCand_eligible {globalDry : Bool} {cfg : GroupCfg} {st0 : GState} {
       · left; exact ⟨hs, he⟩
       · right; exact goAge_gt nowMock v cfg.hardNs hhard hlo hhi hh
 
-theorem removalEntry_ok {c : Ctx} {cands : List Node} {e : Entry}
-    (hc : ∀ n ∈ cands, n ∈ c.view.nodes ∧ eligible c n = true) (he : RemovalEntry c.g cands e) : C01.okEntry c e = true := by
-  cases he with
-  | terminate n hn hb b =>
-    obtain ⟨hin, hel⟩ := hc n hn
-    unfold C01.okEntry
-    simp only [List.any_eq_true]
-    exact ⟨n, hin, by simp [hel, instance_backs hb]⟩
-  | delete n hn b =>
-    obtain ⟨hin, hel⟩ := hc n hn
-    unfold C01.okEntry
-    simp only [List.any_eq_true]
-    exact ⟨n, hin, by simp [hel]⟩
-
 /-- **C01, one scan** (partial: taint values within the range where `time.Unix` does not wrap; see
     `C01_full_fails`). Whatever the configuration (with non-negative grace periods), controller
     state, provider state, view, clocks, ordering hints and environment responses, every terminate
@@ -192,16 +123,13 @@ theorem C01_scan_partial (rnd : Rat → Rat) (o : Oracle) (k : Nat) (globalDry :
   have := scanGroup_entries rnd o k globalDry cfg st0 g view h nowMock nowReal e he
   cases this with
   | metrics id b => rfl
-  | force hf => exact removalEntry_ok (c := ⟨globalDry, cfg, st0, g, view, nowMock, nowReal⟩) (fun n hn => forceCand_eligible hn) hf
-  | reap hf => exact removalEntry_ok (c := ⟨globalDry, cfg, st0, g, view, nowMock, nowReal⟩) (fun n hn => reaperCand_eligible hsoft hhard hr hn) hf
+  | force hf => exact removalEntry_backed (c := ⟨globalDry, cfg, st0, g, view, nowMock, nowReal⟩) (fun n hn => forceCand_eligible hn) hf
+  | reap hf => exact removalEntry_backed (c := ⟨globalDry, cfg, st0, g, view, nowMock, nowReal⟩) (fun n hn => reaperCand_eligible hsoft hhard hr hn) hf
   | taint hd c hc ha => cases ha <;> rfl
   | up hd hu =>
     cases hu with
     | untaint c hc hh hdl => cases hdl <;> rfl
-    | increase hi =>
-      unfold C01.okEntry
-      revert hi
-      cases e.call <;> simp [isIncreaseCall]
+    | increase hi => exact increase_not_removal hi
 
 /-- The context a recorded group scan started from. -/
 def ctxOfRec (globalDry : Bool) (r : GroupRec) : Ctx := ⟨globalDry, r.cfg, r.pre, r.preG, r.view, r.nowMock, r.nowReal⟩
